@@ -5,7 +5,7 @@
    property directly.  Termination of the MODEL is by construction (structural recursion on fuel); that the fuel the
    driver passes suffices is observed on every run (no FUEL outcome), not yet proved.  Proved so far - the tokenizer's
    behaviour on the token classes the top-level loop dispatches on (for every amount of leading horizontal whitespace): *)
-Require Import Bebop.front.Tok Bebop.front.TokInv Bebop.front.LexInv Bebop.front.Parse Bebop.front.ParseInv Bebop.front.FmtInv Bebop.front.MsgInv Bebop.front.GenInv Bebop.front.Items Bebop.front.TyInv Bebop.front.TyMsg Bebop.front.TyItems Bebop.front.TyUnion Bebop.front.TyUnionItem Bebop.front.TyOpcode Bebop.front.TyEnum Bebop.front.TyDep Bebop.front.TyDoc Bebop.front.TyDec Bebop.front.TyImport Bebop.front.Schema.
+Require Import Bebop.front.Tok Bebop.front.TokInv Bebop.front.LexInv Bebop.front.Parse Bebop.front.ParseInv Bebop.front.FmtInv Bebop.front.MsgInv Bebop.front.GenInv Bebop.front.Items Bebop.front.TyInv Bebop.front.TyMsg Bebop.front.TyItems Bebop.front.TyUnion Bebop.front.TyUnionItem Bebop.front.TyOpcode Bebop.front.TyEnum Bebop.front.TyDep Bebop.front.TyDoc Bebop.front.TyDec Bebop.front.TyImport Bebop.front.TyFDoc Bebop.front.TyFDocM Bebop.front.TyEDoc Bebop.front.TyFDec Bebop.front.TyFEol Bebop.front.Schema.
 From Coq Require Import List NArith ZArith.
 Import ListNotations.
 
@@ -115,7 +115,7 @@ Print Assumptions C11_records.
    instances; front/TyUnion.v + front/TyUnionItem.v the union): a schema is any sequence of import lines (front/TyImport.v), struct, readonly struct, message,
    enum and (non-empty) union definitions, union branches being structs or messages under distinct indices, structs and messages
    optionally under an [opcode(..)] line (front/TyOpcode.v), enums optionally with a declared integer base type (front/TyEnum.v), message fields
-   optionally under a [deprecated("reason")] line (front/TyDep.v), structs and messages optionally under `//` doc comment lines (front/TyDoc.v);
+   optionally under a [deprecated("reason")] line (front/TyDep.v), structs and messages optionally under `//` doc comment lines (front/TyDoc.v), struct and message FIELDS optionally under `//` doc comment lines - which also give the field its tags - and then a [deprecated(..)] line (front/TyFDoc.v, front/TyFDocM.v), and likewise the MEMBERS of a typed enum (front/TyEDoc.v), struct fields optionally followed on their line by a `//` comment, which belongs to no definition (front/TyFEol.v);
    a field type is an
    identifier, array[T], map[K, V] with a primitive key, or any of those followed by any number of [] - nested to ANY depth
    (front/TyInv.v: read_field_type on the tokens of a type expression, by induction on the expression); enums untyped,
@@ -164,6 +164,33 @@ Definition C11_schema_statement : Prop :=
   (* `//` comment lines before a struct or a message are its comment: the lines joined by newlines *)
   (forall cs nm fl k, structs_of (SDocStruct cs nm fl k) = [tstruct_of_cm (join_nl cs) (ibytes nm) (map btf fl)]) /\
   (forall cs nm fl k, messages_of (SDocMessage cs nm fl k) = [tmessage_of_cm (join_nl cs) (ibytes nm) (map btm fl)]) /\
+  (* `//` comment lines before a struct FIELD are that field's comment - the lines joined by newlines - and nobody else's; a
+     [deprecated("reason")] line may follow them;
+     each line of the shape [tag(key:"value")] / [tag(key)] is also one of its tags, in order (parse_tag decides, line by line) *)
+  (forall nm fl k, structs_of (SFDocStruct nm fl k) =
+     [{| s_name := ibytes nm; s_comment := []; s_opcode := 0; s_readonly := false;
+         s_fields := map (fun f => {| f_type := ft_of (bty (fst (snd (snd f)))); f_name := ibytes (snd (snd (snd f))); f_comment := join_nl (fst f);
+                                      f_tags := fold_left (fun tags c => match parse_tag c with Some t => tags ++ [t] | None => tags end) (fst f) [];
+                                      f_depmsg := match fst (snd f) with Some b => b | None => [] end;
+                                      f_dep := match fst (snd f) with Some _ => true | None => false end |}) fl |}]) /\
+  (* likewise before a message field, where a [deprecated("reason")] line may follow the comment lines *)
+  (forall nm fl k, messages_of (SFDocMessage nm fl k) =
+     [{| m_name := ibytes nm; m_comment := []; m_opcode := 0;
+         m_fields := map (fun f => (xv (fst (snd (snd f))),
+                                    {| f_type := ft_of (bty (fst (snd (snd (snd f))))); f_name := ibytes (snd (snd (snd (snd f)))); f_comment := join_nl (fst f);
+                                       f_tags := fold_left (fun tags c => match parse_tag c with Some t => tags ++ [t] | None => tags end) (fst f) [];
+                                       f_depmsg := match fst (snd f) with Some b => b | None => [] end;
+                                       f_dep := match fst (snd f) with Some _ => true | None => false end |})) fl |}]) /\
+  (* and before a member of a typed enum: the member's comment, its deprecation *)
+  (forall nm tname uns bits ml k, enums_of (SFDocEnum nm tname uns bits ml k) =
+     [{| e_name := ibytes nm; e_comment := []; e_simple := ibytes tname; e_unsigned := uns;
+         e_opts := map (fun m => {| o_name := ibytes (fst (snd (snd m))); o_comment := join_nl (fst m);
+                                    o_depmsg := match fst (snd m) with Some b => b | None => [] end;
+                                    o_value := if uns then 0%Z else Z.of_N (xv (snd (snd (snd m))));
+                                    o_uvalue := if uns then xv (snd (snd (snd m))) else 0%N;
+                                    o_dep := match fst (snd m) with Some _ => true | None => false end |}) ml |}]) /\
+  (* a `//` comment AFTER a field, on the field's line, belongs to no definition: the File is that of the struct without it *)
+  (forall nm fl k, structs_of (SEolStruct nm fl k) = [tstruct_of (ibytes nm) (map (fun f => btf (fst f)) fl)]) /\
   (* ANY sequence of `//` comment lines and opcode lines before a struct, readonly struct, message (fields possibly
      deprecated), union or typed enum (front/TyDec.v; enums take no opcode line): the definition's comment is the comment
      lines joined by newlines, its opcode that of the LAST opcode line (0 if there is none) *)
@@ -173,6 +200,14 @@ Definition C11_schema_statement : Prop :=
   (forall P nm fl k, messages_of (SDec P (BDMessage nm fl) k) = [gdmessage_of (dec_cmt P) (dec_opc P) (ibytes nm) (map bdf fl)]) /\
   (forall P nm bl k, unions_of (SDec P (BUnion nm bl) k) = [gunion_of (dec_cmt P) (dec_opc P) (ibytes nm) (map bub bl)]) /\
   (forall P nm tname uns bits ml k, enums_of (SDec P (BEnum nm tname uns bits ml) k) = [genum_of (dec_cmt P) (ibytes nm) (ibytes tname) uns (map bem ml)]) /\
+  (* ... and the same before a struct / message / typed enum whose fields / members carry their own comment lines, tags and
+     deprecations (front/TyFDec.v): the fully documented definition *)
+  (forall P nm fl k, structs_of (SDec P (BFStruct nm fl) k) = [gcstruct_of (dec_cmt P) (dec_opc P) (ibytes nm) (map bcf fl)]) /\
+  (forall P nm fl k, messages_of (SDec P (BFMessage nm fl) k) = [gcmessage_of (dec_cmt P) (dec_opc P) (ibytes nm) (map bcm fl)]) /\
+  (forall P nm tname uns bits ml k, enums_of (SDec P (BFEnum nm tname uns bits ml) k) = [gcenum_of (dec_cmt P) (ibytes nm) (ibytes tname) uns (map bce ml)]) /\
+  (forall cmt oc nm fl, gcstruct_of cmt oc nm fl = {| s_name := nm; s_comment := cmt; s_fields := s_fields (cstruct_of nm fl); s_opcode := oc; s_readonly := false |}) /\
+  (forall cmt oc nm fl, gcmessage_of cmt oc nm fl = {| m_name := nm; m_comment := cmt; m_fields := m_fields (cmessage_of nm fl); m_opcode := oc |}) /\
+  (forall cmt nm tname uns ml, gcenum_of cmt nm tname uns ml = {| e_name := nm; e_comment := cmt; e_opts := e_opts (cenum_of nm tname uns ml); e_simple := tname; e_unsigned := uns |}) /\
   (forall b P, dec_cmt (LDoc b :: P) = join_nl (pcm (map bp P) [b])) /\ (forall l P, dec_cmt (LOpc l :: P) = dec_cmt P) /\ dec_cmt [] = [] /\
   (forall P b, dec_opc (P ++ [LDoc b]) = dec_opc P) /\ (forall P l, dec_opc (P ++ [LOpc l]) = ol_val (bol l)) /\ dec_opc [] = 0%N /\
   (* an enum with a declared base type has that type, its signedness, and members read at its width *)
@@ -192,10 +227,11 @@ Proof.
   - intros dl lay tail H1 H2 H3 H4 H5.
     destruct (schema_laws dl lay tail H1 H2 H3 H4 H5) as (y & _ & _ & _ & _ & Hr). exact Hr.
   - repeat match goal with |- _ /\ _ => split end; intros;
-      unfold unions_of, union_of, structs_of, messages_of, enums_of, tstruct_of, tstruct_of_ro, tmessage_of, tenum_of, dmessage_of, dec_cmt, dec_opc, popc; rewrite ?map_map, ?map_app, ?fold_left_app; try reflexivity.
+      unfold unions_of, union_of, structs_of, messages_of, enums_of, tstruct_of, tstruct_of_ro, tmessage_of, tenum_of, dmessage_of, dec_cmt, dec_opc, popc, cstruct_of, cmessage_of, cenum_of, estruct_of, efield_of, bef; rewrite ?map_map, ?map_app, ?fold_left_app; try reflexivity.
     + do 2 f_equal. apply map_ext. intros [x bn fl0|x bn fl0]; reflexivity.
+    + unfold cmember_opt, bce, bem. do 2 f_equal. apply map_ext. intros m. cbn [fst snd]. destruct uns; reflexivity.
 Qed.
-(* the hypotheses are met (two imports, an enum, a readonly struct with a map of arrays, a message with nested containers, a union, a message and a struct under opcode lines, an int16 enum, a message with a deprecated field, a struct under two comment lines, a union under comment / opcode / comment / opcode lines, a byte enum under a comment line, an empty struct;
+(* the hypotheses are met (two imports, an enum, a readonly struct with a map of arrays, a message with nested containers, a union, a message and a struct under opcode lines, an int16 enum, a message with a deprecated field, a struct under two comment lines, a union under comment / opcode / comment / opcode lines, a byte enum under a comment line, an empty struct, a struct with a field under a comment line and two tag lines and a deprecated field, a message with a commented deprecated field, a uint8 enum with a commented member and a deprecated one, a struct under a comment line and an opcode line whose field has its own comment line, a struct with an end-of-line comment after a field;
    blank lines), and the conclusion computed *)
 Example C11_schema_witness :
   let E := {| ic := 69%N; itl := [] |} in let R := {| ic := 82%N; itl := [111%N] |} in let M := {| ic := 77%N; itl := [] |} in
@@ -214,18 +250,35 @@ Example C11_schema_witness :
              SDocStruct [[32; 97]%N; [98]%N] {| ic := 67%N; itl := [] |} [(LSimple i32 0, x)] 1;
              SDec [LDoc [100]%N; LOpc (LNum one); LDoc [101]%N; LOpc (LStr 69%N 70%N 71%N 72%N)] (BUnion {| ic := 86%N; itl := [] |} [LUs one A []]) 1;
              SDec [LDoc [102]%N] (BEnum {| ic := 87%N; itl := [] |} {| ic := 98%N; itl := [121; 116; 101]%N |} true 8%N [(A, n200)]) 0;
-             SStruct S [] 0] in
+             SStruct S [] 0;
+             SFDocStruct {| ic := 70%N; itl := [] |}
+               [([[32; 100]%N; [91; 116; 97; 103; 40; 106; 115; 111; 110; 58; 34; 105; 100; 34; 41; 93]%N; [91; 116; 97; 103; 40; 111; 41; 93]%N], (None, (LSimple i32 0, x)));
+                ([], (Some [103; 111]%N, (LSimple str 1, y)))] 1;
+             SFDocMessage {| ic := 71%N; itl := [] |}
+               [([[32; 109]%N], (Some [111; 108; 100]%N, (one, (LSimple i32 0, x)))); ([], (None, (n200, (LSimple str 0, y))))] 0;
+             SFDocEnum {| ic := 72%N; itl := [] |} {| ic := 117%N; itl := [105; 110; 116; 56]%N |} true 8%N
+               [([[32; 101]%N; [32; 102]%N], (None, (A, one))); ([], (Some [120]%N, (B, n200)))] 0;
+             SDec [LDoc [100]%N; LOpc (LNum one)] (BFStruct {| ic := 90%N; itl := [] |} [([[32; 122]%N], (None, (LSimple i32 0, x)))]) 0;
+             SEolStruct {| ic := 89%N; itl := [] |} [((LSimple i32 0, x), Some [32; 101]%N); ((LSimple str 0, y), None)] 0] in
   let lay := glayout (map xel_of dl) in
   Forall sdefn_ok dl /\ map snd lay = schema_lexemes dl /\ sep_ok lay /\
   (exists s', read_file (render lay []) false = POk (schema_file dl) s') /\
-  map s_readonly (structs (schema_file dl)) = [true; false; false; false] /\ map s_opcode (structs (schema_file dl)) = [0; 200; 0; 0]%N /\
-  map s_comment (structs (schema_file dl)) = [[]; []; [32; 97; 10; 98]; []]%N /\
-  map m_opcode (messages (schema_file dl)) = [0; 1145258561; 0]%N /\ imports (schema_file dl) = [[97; 46; 98; 111; 112]; [98]]%N /\
+  map s_readonly (structs (schema_file dl)) = [true; false; false; false; false; false; false] /\ map s_opcode (structs (schema_file dl)) = [0; 200; 0; 0; 0; 1; 0]%N /\
+  map s_comment (structs (schema_file dl)) = [[]; []; [32; 97; 10; 98]; []; []; [100]; []]%N /\
+  map m_opcode (messages (schema_file dl)) = [0; 1145258561; 0; 0]%N /\ imports (schema_file dl) = [[97; 46; 98; 111; 112]; [98]]%N /\
   map (fun u => (un_comment u, un_opcode u)) (unions (schema_file dl)) = [([], 0%N); ([100; 10; 101]%N, 1212630597%N)] /\
-  map e_comment (enums (schema_file dl)) = [[]; []; [102]]%N /\
-  map (fun p => f_dep (snd p)) (flat_map m_fields (messages (schema_file dl))) = [false; false; false; true; false] /\
+  map e_comment (enums (schema_file dl)) = [[]; []; [102]; []]%N /\
+  map (fun o => (o_comment o, o_dep o, o_depmsg o, o_uvalue o)) (flat_map e_opts (skipn 3 (enums (schema_file dl)))) = [([32; 101; 10; 32; 102]%N, false, [], 1%N); ([], true, [120]%N, 200%N)] /\
+  map (fun p => f_dep (snd p)) (flat_map m_fields (messages (schema_file dl))) = [false; false; false; true; false; true; false] /\
+  map (fun p => f_comment (snd p)) (flat_map m_fields (messages (schema_file dl))) = [[]; []; []; []; []; [32; 109]; []]%N /\
   map (fun f => f_type f) (flat_map s_fields (structs (schema_file dl)))
-  = [FArray (FArray (FMap (ibytes str) (FArray (FArray (FSimple (ibytes i32)))))); FSimple (ibytes i32); FSimple (ibytes i32)].
+  = [FArray (FArray (FMap (ibytes str) (FArray (FArray (FSimple (ibytes i32)))))); FSimple (ibytes i32); FSimple (ibytes i32); FSimple (ibytes i32); FArray (FSimple (ibytes str)); FSimple (ibytes i32); FSimple (ibytes i32); FSimple (ibytes str)] /\
+  map (fun f => (f_dep f, f_depmsg f)) (flat_map s_fields (structs (schema_file dl))) = [(false, []); (false, []); (false, []); (false, []); (true, [103; 111]%N); (false, []); (false, []); (false, [])] /\
+  map (fun f => (f_comment f, f_tags f)) (flat_map s_fields (structs (schema_file dl)))
+  = [([], []); ([], []); ([], []);
+     ([32; 100; 10; 91; 116; 97; 103; 40; 106; 115; 111; 110; 58; 34; 105; 100; 34; 41; 93; 10; 91; 116; 97; 103; 40; 111; 41; 93]%N,
+      [{| tg_key := [106; 115; 111; 110]%N; tg_value := [105; 100]%N; tg_bool := false |}; {| tg_key := [111]%N; tg_value := []; tg_bool := true |}]);
+     ([], []); ([32; 122]%N, []); ([], []); ([], [])].
 Proof.
   cbv zeta.
   match goal with |- Forall sdefn_ok ?d /\ _ => assert (Hok : Forall sdefn_ok d) end.
